@@ -7,11 +7,15 @@
      _collect_if_structure    parser.py:1492     collect_if_structure
      _collect_try_structure   parser.py:1515     collect_try_structure
      _parse_simple_lines      parser.py:2326ff   parse_m (lexical skeleton only: which lines form
-                                                 which block; headers classified on the
-                                                 comment-stripped line, elif/else/except probed on
-                                                 raw.strip())
-     parse()                  parser.py:4213ff   top_parse (headers classified on raw.strip(),
-                                                 while True / while / def / for only at indentation 0)
+                                                 which block; headers and the elif/else/except
+                                                 probes classified on the comment-stripped line)
+     parse()                  parser.py:4213ff   top_parse (headers classified on the comment-stripped
+                                                 line, while True / while / def / for only at
+                                                 indentation 0)
+
+   State of the code: with the repair "fix: comments never change the block structure the parser
+   sees" (comment-only lines are treated like blank lines by _collect_block; parse() and the
+   elif/else/except probes look at _strip_inline_comment(raw).strip()).
 
    No proofs in this file. *)
 From Coq Require Import ZArith List Bool Lia.
@@ -94,11 +98,17 @@ Definition strip_inline_comment (t : text) : text :=
 
 (* ---------------------------------------------------------------- _collect_block *)
 
+Definition starts_hash (t : text) : bool := match t with c :: _ => c =? ch_hash | [] => false end.
+(* `lines[i].lstrip().startswith('#')` *)
+Definition comment_only (l : text) : bool := starts_hash (lstrip l).
+(* `not lines[i].strip() or lines[i].lstrip().startswith('#')`: blank or comment-only *)
+Definition junk (l : text) : bool := is_blank l || comment_only l.
+
 (* the while loop of _collect_block on the suffix lines[start+1:] *)
 Fixpoint take_block (base : nat) (ls : list text) : list text :=
   match ls with
   | [] => []
-  | l :: r => if is_blank l then l :: take_block base r
+  | l :: r => if junk l then l :: take_block base r
               else if (indent_of l <=? base)%nat then []
               else l :: take_block base r
   end.
@@ -256,17 +266,21 @@ Definition re_except (t : text) : bool :=
 (* ---------------------------------------------------------------- _collect_if/try_structure *)
 
 (* the block loop and the probing loop fused into one pass over lines[start+1:]:
-   in_block = we are inside _collect_block of the current branch.  [re] decides which
-   stripped lines continue the structure (elif/else, or except). *)
+   in_block = we are inside _collect_block of the current branch (else in the probing loop, which
+   looks at _strip_inline_comment(raw).strip()).  [re] decides which stripped lines continue the
+   structure (elif/else, or except). *)
 Fixpoint struct_scan (re : text -> bool) (base : nat) (in_block : bool) (ls : list text) : list text :=
   match ls with
   | [] => []
   | l :: r =>
-    if is_blank l then l :: struct_scan re base in_block r
+    if in_block && junk l then l :: struct_scan re base true r
     else if in_block && negb (indent_of l <=? base)%nat then l :: struct_scan re base true r
-    else if negb (indent_of l =? base)%nat then []
-    else if re (strip l) then l :: struct_scan re base true r
-    else []
+    else
+      let t := strip (strip_inline_comment l) in
+      if is_nil t then l :: struct_scan re base false r
+      else if negb (indent_of l =? base)%nat then []
+      else if re t then l :: struct_scan re base true r
+      else []
   end.
 
 Definition collect_structure (re : text -> bool) (lines : list text) (start : nat) : list text * nat :=
@@ -279,8 +293,6 @@ Definition collect_if_structure := collect_structure re_elif_or_else.
 Definition collect_try_structure := collect_structure re_except.
 
 (* ---------------------------------------------------------------- _parse_simple_lines, lexical skeleton *)
-
-Definition starts_hash (t : text) : bool := match t with c :: _ => c =? ch_hash | [] => false end.
 
 Inductive hkind := KIf | KElif | KElse | KTry | KExcept | KWhile | KFor.
 
@@ -305,7 +317,7 @@ Inductive pmode := MMain | MIf (base : nat) | MTry (base : nat).
 Inductive probe_res := PSkip | PBranch (k : hkind) (next : pmode) | PNone.
 
 (* the elif/else (resp. except) probing loops that follow an if (resp. try) block; they look
-   at raw.strip(), i.e. at text that still contains a trailing comment *)
+   at t = _strip_inline_comment(raw).strip() *)
 Definition probe (m : pmode) (raw t : text) : probe_res :=
   match m with
   | MMain => PNone
@@ -334,13 +346,13 @@ Fixpoint parse_m (fuel : nat) : pmode -> list text -> list node :=
       match ls with
       | [] => []
       | raw :: rest =>
-        match probe m raw (strip raw) with
+        let s := strip (strip_inline_comment raw) in
+        match probe m raw s with
         | PSkip => go m rest
         | PBranch k next =>
             let blk := take_block (indent_of raw) rest in
-            NBlock k (strip raw) blk (parse_m f MMain blk) :: parse_m f next (skipn (length blk) rest)
+            NBlock k s blk (parse_m f MMain blk) :: parse_m f next (skipn (length blk) rest)
         | PNone =>
-            let s := strip (strip_inline_comment raw) in
             if is_nil s || starts_hash s then go MMain rest
             else match classify s with
                  | Some k =>
@@ -408,7 +420,7 @@ Fixpoint top_parse (fuel : nat) (ls : list text) : list titem :=
     match ls with
     | [] => []
     | raw :: rest =>
-      let t := strip raw in
+      let t := strip (strip_inline_comment raw) in
       if is_nil t || starts_hash t then top_parse f rest
       else if top_import t then top_parse f rest
       else if (indent_of raw =? 0)%nat && re_while_true t then
